@@ -313,10 +313,12 @@ SPECIAL_SLOTS = [
 SPECIAL_REPL = {
     'PAT': ['aa\n.bb', '"aa"\n"bb"', '1+\n2j', '-\n1', '(aa\n.bb)', 'aa.bb', '(aa.bb)', '-1', 'aa |\nbb', '(aa |\nbb)', 'CC(\n)', '[aa,\n bb]', 'aa,\nbb', '{1: aa,\n **rr}', '"ss" # c\n"tt"', 'aa \\\n.bb'],
     'SOLO': ['(aa + bb)', '(aa or bb)', 'aa', '(aa)', '(aa,\n bb)', '(jj for jj in yy)', 'lambda: zz', '(lambda: zz)', '*ss', '(aa if bb else cc)', 'aa if bb else cc', '(aa +\n bb)', '(aa := bb)', '"s"\n "t"'],
-    'STAR': ['*xx or yy', '*xx\n.yy', '*xx', '*(xx | yy)', '*(xx |\n yy)', '*(xx or yy)', '*(xx |  # c\n yy)', '*xx.yy', '*[xx,\n yy]', '*(xx\n .yy)', '*(xx if yy else zz)', '*(xx,\n yy)', 'xx', '(xx |\n yy)'],
+    'STAR': ['*xx or yy', '*xx\n.yy', '*xx', '*(xx | yy)', '*(xx |\n yy)', '*(xx or yy)', '*(xx |  # c\n yy)', '*xx.yy', '*[xx,\n yy]', '*(xx\n .yy)', '*(xx if yy else zz)', '*(xx,\n yy)', 'xx', '(xx |\n yy)', '*\nxx', '*\n(xx)', '* \\\n xx.yy', '*\n\n  (xx\n)', '*\nxx or yy'],
     'BARE': ["('a'\n'b' + \\\n cc)", "(f'a'\nf'{bb}' + \\\n cc)", "(b'a'\nb'b' * \\\n cc)", "('a'\n'b' + cc)", "('a' \\\n'b' + \\\n cc)", "('a'\n'b')", '(aa +\n bb)', '(aa + \\\n bb)',
              "('a' # c\n'b')", '(aa\n.bb)', "('''a\nb''' + \\\n cc)", '(aa)', "('a'\n'b').cc", '(aa if bb else\n cc)', "('a'\n'b' \\\n 'c')", "(cc + \\\n 'a'\n'b')", "('a'\n'b' % \\\n cc)",
-             "(f'''a\n{bb}''' + \\\n cc)", "(aa \\\n + 'a'\n'b' \\\n)"],
+             "(f'''a\n{bb}''' + \\\n cc)", "(aa \\\n + 'a'\n'b' \\\n)",
+             # a COMMENT that ends in a backslash between the parts of an implicit concatenation is no line continuation
+             '("a" # c \\\n"b")', '(f"a" # c \\\n"b")', '("a" # c \\\n"b" + cc)', '("a#" \\\n"b")', '("a" \\\n # c \\\n"b")', "(b'a' # \\\n b'b' \\\n)"],
     'TGT': ['yy + zz', 'ff()', '1', 'yy.zz', 'yy[zz]', '(yy, zz)', '[yy, *zz]', 'yy', '(yy)', 'yy if zz else ww', 'not yy', 'lambda: 0', '(yy\n.zz)', 'yy[zz:ww]', '*yy', '(yy := zz)', 'None', '"ss"', '[yy, ff()]', '(yy, 1)', 'yy.zz.ww[0]',
             '[]', '()', '...', '-yy', 'yy, zz'],
     'ANN': ['xx\n.yy', '(xx)', 'xx', 'ff(xx)', '(xx\n.yy)', 'xx[0]', '(xx[0])', 'xx.yy', '(xx\n [0])', '"ss"', 'xx \\\n.yy'],
